@@ -80,7 +80,7 @@ def ref(op, a, b):
     if op == "%%":
         return ("err",) if b == 0 else ("ok", a % b)
     if op == "%":
-        return ("skip", "rem_by_zero") if b == 0 else ("ok", trunc_rem(a, b))
+        return ("err",) if b == 0 else ("ok", trunc_rem(a, b))
     if op == "/!":
         if b == 0 or a % b != 0:
             return ("err",)
